@@ -168,8 +168,52 @@ fn iter_builders(r: &mut Rng, m: &Model, o: &mut CaseOut) {
     let _ = o.must_panic("AdjacencyListWeighted::from(no rows):accepted", String::new, || AdjacencyListWeighted::<usize>::from(Vec::<BTreeMap<usize, usize>>::new()));
 }
 
+/// The public fixtures exist once per representation (and the weighted ones
+/// once per weight type); all copies of one fixture must be the same digraph.
+fn fixtures_agree(o: &mut CaseOut) {
+    use graaf::repr::{adjacency_list::fixture as al, adjacency_map::fixture as am, adjacency_matrix::fixture as mx, edge_list::fixture as el};
+    macro_rules! fx {
+        ($($name:ident),*) => {$(
+            {
+                let a = al::$name();
+                let mut m = Model::new(a.order());
+                for (u, v) in a.arcs() {
+                    m.arcs.insert((u, v), 1);
+                }
+                let tag = stringify!($name);
+                observe(&a, &m, o, &format!("fixture {tag} AdjacencyList"), true);
+                observe(&am::$name(), &m, o, &format!("fixture {tag} AdjacencyMap"), true);
+                observe(&mx::$name(), &m, o, &format!("fixture {tag} AdjacencyMatrix"), true);
+                observe(&el::$name(), &m, o, &format!("fixture {tag} EdgeList"), true);
+            }
+        )*};
+    }
+    fx!(bang_jensen_196, bang_jensen_34, bang_jensen_94, kattis_builddeps, kattis_cantinaofbabel_1, kattis_cantinaofbabel_2,
+        kattis_escapewallmaria_1, kattis_escapewallmaria_2, kattis_escapewallmaria_3);
+    use graaf::repr::adjacency_list_weighted::fixture as w;
+    macro_rules! fw {
+        ($(($u:ident, $i:ident)),*) => {$(
+            {
+                let a = w::$u();
+                let b = w::$i();
+                let au: Vec<(usize, usize, i64)> = a.arcs_weighted().map(|(u, v, x)| (u, v, *x as i64)).collect();
+                let bi: Vec<(usize, usize, i64)> = b.arcs_weighted().map(|(u, v, x)| (u, v, *x as i64)).collect();
+                o.eq(&format!("fixture {} vs {}:arcs_weighted", stringify!($u), stringify!($i)), &bi, &au);
+                o.eq(&format!("fixture {} vs {}:order", stringify!($u), stringify!($i)), &b.order(), &a.order());
+            }
+        )*};
+    }
+    fw!((bang_jensen_94_usize, bang_jensen_94_isize), (bang_jensen_96_usize, bang_jensen_96_isize), (kattis_bryr_1_usize, kattis_bryr_1_isize),
+        (kattis_bryr_2_usize, kattis_bryr_2_isize), (kattis_bryr_3_usize, kattis_bryr_3_isize),
+        (kattis_crosscountry_usize, kattis_crosscountry_isize), (kattis_shortestpath1_usize, kattis_shortestpath1_isize));
+}
+
 pub fn case(idx: u64, seed: u64, p: &Params, o: &mut CaseOut) {
     let mut r = Rng::for_case(16, seed, idx);
+    if idx % 512 == 7 {
+        fixtures_agree(o);
+        o.bump("repo_fixtures_in_every_representation");
+    }
     let max = p.usize("max_order", 40);
     let fam = r.below(gen::FAMILIES.len());
     let n = if r.chance(0.7) { gen::algo_order(&mut r, max.min(10), 130) } else { r.range(1, max) };
